@@ -157,7 +157,7 @@ Handle ==
                        /\ uw' = IF q \in DOMAIN uw /\ \E m \in marks : m.wd = r.wd /\ m.ino = uw[q] THEN Without(uw, {q}) ELSE uw
              ELSE                                                            \* w.watches.remove(watch): delete(w.path, watch.path); delete(w.wd, watch.wd)
              /\ wdTab' = {x \in wdTab : x.wd # r.wd}
-             /\ pathTab' = {x \in pathTab : x.path # q}
+             /\ pathTab' = {x \in pathTab : ~(x.path = q /\ x.wd = r.wd)}        \* (since D13: only if the key still belongs to this watch)
              /\ uw' = IF r.kind = "delself" /\ q \in DOMAIN uw /\ uw[q] \notin alive THEN Without(uw, {q}) ELSE uw
              /\ UNCHANGED marks /\ kq' = Tail(kq)
   /\ UNCHANGED <<name, ltgt, alive, nextIno, nextWd, panic, away, steps>>
